@@ -136,6 +136,7 @@ func (vc *VC) assume(cond, term, origin string) {
 }
 
 func (vc *VC) oblige(kind, label, cond, goal, pos, src string, props []string) *Obligation {
+	props = routeProps(kind, props)
 	key := kind + "/" + label
 	k := vc.labels[key]
 	vc.labels[key]++
